@@ -27,7 +27,7 @@ type StepSpec struct {
 	ErrLen     int      `json:"errLen,omitempty"`
 	Output     bool     `json:"output,omitempty"` // the step captures its stdout into an output variable
 	// Redirect: 0 none, 1 stdout: file, 2 stderr: file, 3 both (two files), 4 both into the SAME file,
-	// 5 stdout: /dev/null, 6 stdout and stderr: /dev/null
+	// 5 stdout: /dev/null, 6 stdout and stderr: /dev/null, 7 stdout: /dev/full (every flush fails; only with GenOpts.DevFull)
 	Redirect int `json:"redirect,omitempty"`
 }
 
@@ -119,6 +119,7 @@ type GenOpts struct {
 	Retries    bool // generate retry policies
 	Preconds   bool
 	SetupFails bool
+	DevFull    bool // some retried steps write their stdout to /dev/full (the write-back of the step's output fails at every teardown)
 	Redirects  bool // stdout:/stderr: files (paths inside the run's scratch directory: not for cases whose steps are re-used by a later run)
 	Handlers   bool
 	Stop       bool // maybe inject a stop
@@ -224,7 +225,12 @@ func Gen(t *rapid.T, o GenOpts) Case {
 		}
 		s.OutLen = rapid.SampledFrom([]int{0, 0, 0, 7, 60, 4095, 4096, 4097, 6000}).Draw(t, "outLen")
 		s.Output = rapid.IntRange(0, 3).Draw(t, "output") == 0
-		if o.Redirects && !s.SetupFail {
+		if o.DevFull && !s.SetupFail && s.RetryLimit > 0 && s.FailFirst != 0 && rapid.IntRange(0, 3).Draw(t, "devFull") == 0 {
+			s.Redirect = 7
+			if s.OutLen == 0 {
+				s.OutLen = 60
+			}
+		} else if o.Redirects && !s.SetupFail {
 			s.Redirect = rapid.SampledFrom([]int{0, 0, 0, 0, 1, 2, 3, 4, 5, 6}).Draw(t, "redirect")
 		}
 		if s.OutLen > 0 && rapid.Bool().Draw(t, "hasErr") {
@@ -243,6 +249,28 @@ func Gen(t *rapid.T, o GenOpts) Case {
 	}
 	c.DelayUS = rapid.SampledFrom([]int{0, 0, 0, 200}).Draw(t, "delayUS")
 	c.Done = rapid.IntRange(0, 2).Draw(t, "done")
+	for i := range c.Steps {
+		// only steps nothing depends on write to /dev/full: what a failed
+		// write-back of the output means for dependents that were launched
+		// before it is not stated anywhere
+		if c.Steps[i].Redirect == 7 {
+			for _, o := range c.Steps {
+				for _, d := range o.Depends {
+					if d == c.Steps[i].Name {
+						c.Steps[i].Redirect = 0
+					}
+				}
+			}
+		}
+	}
+	for _, s := range c.Steps {
+		// a failing write-back of a step's output is only meaningful in the
+		// configuration that exists in production (the agent always passes a
+		// status channel): without one the scheduler's own clean-up path differs
+		if s.Redirect == 7 && c.Done == 0 {
+			c.Done = 1
+		}
+	}
 	if o.Handlers {
 		mask := rapid.IntRange(0, 15).Draw(t, "handlerMask")
 		for i, h := range HandlerNames {
